@@ -395,6 +395,19 @@ fn dispatch(name: &str, a: &mut Args) -> String {
 		},
 		"node_announcement_probe" => node_announcement_probe(a),
 		"node_announcement_addr_probe" => node_announcement_addr_probe(a),
+		"claimable_htlc_roundtrip" => {
+			// <value> <sender_intended> <total> <trv?> <trv> <cltv> <skimmed?> <skimmed> <keysend> <payment_data>
+			let (v, siv, total) = (a.u64(), a.u64(), a.u64());
+			let trv = a.opt_u64();
+			let cltv = a.u32();
+			let sk = a.opt_u64();
+			let (keysend, data) = (a.bool(), a.bool());
+			match lightning::ln::channelmanager::verif_hooks::claimable_htlc_roundtrip(v, siv, total, trv, cltv, sk, keysend, data) {
+				Some((v2, siv2, total2, trv2, cltv2, sk2, key2, data2)) => format!(
+					"1 {} {} {} {} {} {} {} {}", v2, siv2, total2, opt_u64(trv2), cltv2, opt_u64(sk2), key2 as u8, data2 as u8),
+				None => "0 0 0 0 0 0 0 0 0 0 0".to_string(),
+			}
+		},
 		"invoice_signing_pubkey_probe" => {
 			// <signing id> <has issuer> <issuer id> <has paths> <#paths> then per path: <#hops> <hop ids...>
 			let signing = a.u8();
